@@ -1084,9 +1084,16 @@ func (in *Interp) binop(op token.Token, xt types.Type, a, b Value, yt types.Type
 				r = in.tt.Float(float64(float32(r.f)), r.sort)
 			}
 			if in.cfg.Dom == SReal && op == token.QUO && !y.IsConst() {
-				// real division by zero has no IEEE meaning here: fork, the zero branch is unsupported
+				// division by zero: the IEEE result is a non-finite constant chosen by the sign of x
 				if in.branch(in.tt.Eq(y, in.tt.Float(0, SReal)), "div-by-zero") {
-					panic(unsupported("Q domain: division by a symbolic zero"))
+					zero := in.tt.Float(0, SReal)
+					if in.branch(in.tt.FCmp(in.cfg, ">", x, zero), "div-by-zero sign") {
+						return in.tt.Float(math.Inf(1), SReal)
+					}
+					if in.branch(in.tt.FCmp(in.cfg, "<", x, zero), "div-by-zero sign") {
+						return in.tt.Float(math.Inf(-1), SReal)
+					}
+					return in.tt.Float(math.NaN(), SReal)
 				}
 			}
 			return r
